@@ -53,6 +53,19 @@ func c18Read(tel *componenttest.Telemetry) c18Counts {
 	return c
 }
 
+// c18PCtx: 0 live, 1 already cancelled, 2 deadline already expired
+func c18PCtx(kind int) (context.Context, context.CancelFunc) {
+	switch kind {
+	case 1:
+		ctx, cf := context.WithCancel(context.Background())
+		cf()
+		return ctx, cf
+	case 2:
+		return context.WithDeadline(context.Background(), time.Now().Add(-time.Second))
+	}
+	return context.Background(), func() {}
+}
+
 type c18Down struct {
 	calls int
 	same  bool
@@ -120,8 +133,31 @@ func TestVerifC18Proc(t *testing.T) {
 		ml := f.memoryLimiters[cfg].memlimiter
 		host := componenttest.NewNopHost()
 		comps := []component.Component{pl, pt, pm, pp}
+		nCtx := 0
+		ctxKind := func() int {
+			nCtx++
+			if idx == 1 {
+				return 1 + nCtx%2
+			}
+			if idx == 0 || r.IntN(3) != 0 {
+				return 0
+			}
+			return 1 + r.IntN(2)
+		}
 		for _, c := range comps {
-			if err := c.Start(bg, host); err != nil {
+			// components are started and shut down with live, already cancelled or already expired contexts (case 1: all dead)
+			sctx, scf := c18PCtx(ctxKind())
+			var err error
+			func() {
+				defer func() {
+					if p := recover(); p != nil {
+						out.Linef("viol sig=C18/processor/panic-in-start %v", p)
+					}
+				}()
+				err = c.Start(sctx, host)
+			}()
+			scf()
+			if err != nil {
 				out.Linef("viol sig=C18/processor/start-failed %v", err)
 			}
 		}
@@ -322,7 +358,9 @@ func TestVerifC18Proc(t *testing.T) {
 							out.Linef("viol sig=C18/processor/panic-in-shutdown k=%d %v", k, p)
 						}
 					}()
-					err := comps[k].Shutdown(bg)
+					dctx, dcf := c18PCtx(ctxKind())
+					err := comps[k].Shutdown(dctx)
+					dcf()
 					out.Linef("obs stopped err=%d", vB(err != nil))
 				}()
 				live[k] = false
@@ -370,7 +408,10 @@ func TestVerifC18Proc(t *testing.T) {
 						out.Linef("viol sig=C18/processor/panic-in-shutdown k=%d %v", k, p)
 					}
 				}()
-				if err := c.Shutdown(bg); err != nil {
+				dctx, dcf := c18PCtx(ctxKind())
+				err := c.Shutdown(dctx)
+				dcf()
+				if err != nil {
 					out.Linef("viol sig=C18/processor/shutdown-failed k=%d %v", k, err)
 				}
 			}()
